@@ -305,7 +305,8 @@ impl<'a> B<'a> {
                 2 => call1("to_float", self.arg(Ty::Int, d1)),
                 _ => self.lit(Ty::Float),
             },
-            Ty::Str => match self.c.below(6) {
+            Ty::Str => match self.c.below(7) {
+                6 if self.p.closures > 0 && self.pure == 0 => self.replace_with_call(d1),
                 0 => E::Bin(BinOp::Add, Box::new(self.expr(Ty::Str, d1)), Box::new(self.expr(Ty::Str, d1))),
                 1 => call1("upcase", self.arg(Ty::Str, d1)),
                 2 => call1("downcase", self.arg(Ty::Str, d1)),
@@ -560,6 +561,73 @@ impl<'a> B<'a> {
             _ => "for_each",
         };
         self.closure_of(f, ty, d)
+    }
+
+    /// `replace_with(<string>, r'..', count: n) -> |m| { .. <string> }`: the closure runs once per
+    /// regex match with the match object (`string`, `captures`, named groups) as its parameter
+    fn replace_with_call(&mut self, d: usize) -> E {
+        const PATTERNS: [&str; 6] = [r"\d+", "(a)|b", "[a-c]", r"(?P<num>\d)x?", "o+", ""];
+        let pattern = PATTERNS[self.c.below(PATTERNS.len())];
+        self.pure += 1;
+        let value = if self.c.chance(1, 2) {
+            E::Bin(
+                BinOp::Err,
+                Box::new(E::Call { f: "string".into(), bang: false, args: vec![(None, E::Ev(self.ev_path()))], closure: None }),
+                Box::new(self.lit(Ty::Str)),
+            )
+        } else {
+            self.expr(Ty::Str, d.min(1))
+        };
+        self.pure -= 1;
+        let mut args = vec![(None, value), (None, E::Lit(TV::Regex(pattern.to_string())))];
+        if self.c.chance(1, 3) {
+            args.push((Some("count".to_string()), E::Lit(TV::Int([-1i64, 0, 1, 2][self.c.below(4)]))));
+        }
+        let vis = self.visible();
+        let param = if self.p.shadowing && !vis.is_empty() && self.c.chance(1, 2) {
+            vis[self.c.below(vis.len())].0.clone()
+        } else {
+            PARAM_NAMES[self.c.below(PARAM_NAMES.len())].to_string()
+        };
+        self.scopes.push(BTreeMap::new());
+        self.in_closure += 1;
+        self.scopes.last_mut().unwrap().insert(param.clone(), Ty::Obj);
+        let pure_body = self.p.no_closure_outer_assign;
+        if pure_body {
+            self.pure += 1;
+        }
+        let mut body = Vec::new();
+        if self.c.chance(2, 3) {
+            body.push(self.stmt(d));
+        }
+        let whole = || E::Var(param.clone(), vec![Seg::F("string".into())]);
+        let call1 = |f: &str, a: E| E::Call { f: f.to_string(), bang: false, args: vec![(None, a)], closure: None };
+        let mut fails = false;
+        if self.p.failing_closures && self.c.chance(1, 3) {
+            // the first capture group is null when it did not take part in the match (and absent
+            // when the pattern has no group): `string(..)` then fails on that iteration
+            fails = true;
+            body.push(call1("string", E::Var(param.clone(), vec![Seg::F("captures".into()), Seg::I(0)])));
+        } else {
+            let last = match self.c.below(4) {
+                0 => call1("upcase", whole()),
+                1 => E::Bin(BinOp::Add, Box::new(whole()), Box::new(self.lit(Ty::Str))),
+                2 => call1("to_string", call1("length", E::Var(param.clone(), vec![Seg::F("captures".into())]))),
+                _ => self.expr(Ty::Str, d),
+            };
+            body.push(last);
+        }
+        if pure_body {
+            self.pure -= 1;
+        }
+        self.in_closure -= 1;
+        self.scopes.pop();
+        let call = E::Call { f: "replace_with".to_string(), bang: false, args, closure: Some((vec![param], body)) };
+        if fails {
+            E::Bin(BinOp::Err, Box::new(call), Box::new(self.lit(Ty::Str)))
+        } else {
+            call
+        }
     }
 
     fn closure_of(&mut self, f: &str, coll_ty: Ty, d: usize) -> E {
